@@ -243,6 +243,21 @@ def random_case(rng, max_types, max_args):
 
 
 # reference semantics in python, only used to count non-trivial cases for the evidence file
+def deep_cases():
+    """designed tables beyond anything TLC enumerates: chains of 70 / 130 types (objects, aliases) whose only leaf is declared
+    safe or unsafe - an evaluator with a depth limit, a counter or a stack shortcut answers them differently"""
+    out = []
+    for depth, kind, last in ((70, "object", "safe"), (70, "object", "unsafe"), (130, "object", "safe"), (70, "alias", "safe"), (90, "alias", "unsafe")):
+        tab = [{"kind": kind, "fields": [{"decl": "undeclared", "ty": [t + 2]}]} for t in range(depth - 1)]
+        tab.append({"kind": "object", "fields": [{"decl": last, "ty": [0]}]})
+        args = [{"decl": "undeclared", "legacy": False, "ty": [1]}, {"decl": "undeclared", "legacy": False, "ty": [depth // 2]},
+                {"decl": "undeclared", "legacy": False, "ty": [depth]}]
+        safe = py_safe_types(tab)
+        ref = [all(x in safe for x in a["ty"]) for a in args]
+        out.append({"tab": tab, "args": args, "ref": ref, "mech": ref * 2, "old": True})
+    return out
+
+
 def py_safe_types(tab):
     s = set(range(1, len(tab) + 1))
     while True:
@@ -359,7 +374,7 @@ def run(tier, seed, only_cases=None):
     rest = [c for c in cases if c["mech"] == c["ref"] * 2]
     cyc = [c for c in rest if has_cycle(c["tab"])]
     plain = [c for c in rest if not has_cycle(c["tab"])]
-    chosen = sensitive + interesting[:2000] + rng.sample(cyc, min(len(cyc), budget * 3 // 4))
+    chosen = deep_cases() + sensitive + interesting[:2000] + rng.sample(cyc, min(len(cyc), budget * 3 // 4))
     chosen += rng.sample(plain, min(len(plain), max(0, budget - len(chosen))))
     docs = []
     meta = {}
